@@ -7,6 +7,7 @@ package mr_test
 
 import (
 	"context"
+	"fmt"
 	"math/rand"
 	"os"
 	"runtime"
@@ -144,13 +145,13 @@ func c07N(quick, thorough, failpoint int) int {
 	return vk.N(quick, thorough)
 }
 
-func c07RunRandom(t *testing.T, m *vk.M, n int, salt string) {
+func c07RunRandom(t *testing.T, m *vk.M, base, n int, salt string) {
 	old := runtime.GOMAXPROCS(0)
 	defer runtime.GOMAXPROCS(old)
 	e := c07NewEnv(m)
 	r := m.Rand(salt)
 	viols := 0
-	for idx := 1; idx <= n; idx++ {
+	for idx := base + 1; idx <= base+n; idx++ {
 		sc := c07RandomScenario(r)
 		if !m.Only(idx) {
 			continue
@@ -180,7 +181,7 @@ const c07RandomRule = "seeded random racing scenarios: entry point x workers {Wi
 func TestVerifC07Random(t *testing.T) {
 	m := vk.New(t, "C07", c07RandomRule)
 	defer m.Done()
-	c07RunRandom(t, m, c07N(30000, 600000, 30000), "random")
+	c07RunRandom(t, m, 10000000, c07N(30000, 400000, 30000), "random")
 }
 
 // TestVerifC07CtxAlreadyDone: the context is done before the call is made; the statement
@@ -207,7 +208,7 @@ func TestVerifC07CtxAlreadyDone(t *testing.T) {
 	close(closed)
 	bad := map[string]bool{}
 	for i := 1; i <= n; i++ {
-		if !m.Only(i) {
+		if !m.Only(20000000 + i) {
 			continue
 		}
 		if i%2000 == 1 {
@@ -268,7 +269,7 @@ func TestVerifC07CtxAlreadyDone(t *testing.T) {
 		m.Case(vk.Digest(entry, size, w, got), true)
 		if got != "deadline" {
 			bad[entry] = true
-			m.Violate("C07:outcome:ctx-done-before-call:got-"+got, vk.JSON(map[string]any{"case": i, "entry": entry, "n": size, "workers": w}),
+			m.Violate("C07:outcome:ctx-done-before-call:got-"+got, fmt.Sprintf("case=%d;%s", 20000000+i, vk.JSON(map[string]any{"entry": entry, "n": size, "workers": w})),
 				"call #%d: %s with a context that was already cancelled returned %q (value %v, error %v) instead of context.DeadlineExceeded; GOMAXPROCS=%d", i, entry, got, val, err, runtime.GOMAXPROCS(0))
 		}
 		if i%20000 == 0 {
@@ -287,12 +288,12 @@ func TestVerifC07CtxAlreadyDone(t *testing.T) {
 func TestVerifC07RaceRandom(t *testing.T) {
 	m := vk.New(t, "C07", "under the race detector: "+c07RandomRule)
 	defer m.Done()
-	c07RunRandom(t, m, vk.N(5000, 80000), "race-random")
+	c07RunRandom(t, m, 30000000, vk.N(5000, 80000), "race-random")
 }
 
 func TestVerifC07RaceGated(t *testing.T) {
 	m := vk.New(t, "C07", "under the race detector (reduced size grid): "+c07GatedRule)
 	defer m.Done()
 	names := append([]string{}, c07CoreClasses...)
-	c07RunClasses(t, m, true, vk.N(1, 5), names...)
+	c07RunClasses(t, m, 40000000, true, vk.N(1, 5), names...)
 }
